@@ -154,3 +154,23 @@ VARIANTS += [
  V("c21-g2-dedup-off-by-one", "C21", "C21.G2", "wal/reader.go",
    "h.SeqNum <= r.lastSeqNum", "h.SeqNum < r.lastSeqNum"),
 ]
+
+VARIANTS += [
+ V("c03-r1-seqnum-before-lock", "C03", "C03.R1", "db.go",
+   "	d.mu.Lock()\n	s := &Snapshot{\n		db:     d,\n		seqNum: d.mu.versions.visibleSeqNum.Load(),\n	}",
+   "	seq := d.mu.versions.visibleSeqNum.Load()\n	d.mu.Lock()\n	s := &Snapshot{\n		db:     d,\n		seqNum: seq,\n	}"),
+ V("c03-r2-snapshot-list-read-unlocked", "C03", "C03.R2", "db.go",
+   "	d.mu.snapshots.pushBack(s)\n	d.mu.Unlock()\n	return s", "	d.mu.Unlock()\n	d.mu.snapshots.pushBack(s)\n	return s"),
+ V("c03-g1-iterconfig-without-snapshots", "C03", "C03.G1", "compaction.go",
+   "		Snapshots:             snapshots,\n", ""),
+ V("c03-o1-schedule-before-remove", "C03", "C03.O1", "snapshot.go",
+   "	s.db.mu.snapshots.remove(s)\n\n", "	defer s.db.mu.snapshots.remove(s)\n\n"),
+ V("c03-v1-snapshot-iter-at-latest", "C03", "C03.V1", "snapshot.go",
+   "		snapshot: snapshotIterOpts{seqNum: s.seqNum},", "		snapshot: snapshotIterOpts{},"),
+ V("c04-p1-missing-unref", "C04", "C04.P1", "mid_key.go",
+   "	defer readState.unref()\n", ""),
+ V("c04-o1-seqnum-before-view", "C04", "C04.O1", "get.go",
+   "	readState := d.loadReadState()", "	preSeq := d.mu.versions.visibleSeqNum.Load()\n	_ = preSeq\n	readState := d.loadReadState()"),
+ V("c04-w1-seqnum-mutated-later", "C04", "C04.W1", "iterator.go",
+   "func (i *Iterator) invalidate() {", "func (i *Iterator) invalidate() {\n	i.seqNum = i.seqNum + 0"),
+]
